@@ -35,7 +35,7 @@ for r in results:
                 print("  COVER-FAIL" if ob.clause == "requires-satisfiable" else "  dead-path", ob.func, ob.clause, res["result"])
             continue
         if res["result"] != "unsat" or "-v" in sys.argv:
-            print(f"  {flag} {ob.coarse_id} [{res.get('solver')}, {res.get('seconds',0):.2f}s] {' '.join(ob.trace[-6:])}")
+            print(f"  {flag} {ob.coarse_id} [{res.get('solver')}, {res.get('seconds',0):.2f}s] {' '.join(ob.trace if '-t' in sys.argv else ob.trace[-6:])}")
             if res["result"] == "unknown": print("     tried:", res.get("tried"))
             if res["result"] == "sat" and "-m" in sys.argv:
                 print("     ", res["raw"][:600])
